@@ -243,11 +243,15 @@ def rule_cache_protocol(F, rep, rule="cache-protocol", keys="exact"):
                "entry": "elf_stream::CachingReader::load_bytes",      # look-up + slot reservation in one call (the slot's insert is an `insert`)
                "get": "elf_stream::CachingReader::get_bytes", "clear": "elf_stream::CachingReader::clear_cache",
                "default": "elf_stream::CachingReader::new", "new": "elf_stream::CachingReader::new"}
-    READERS = ("get", "contains_key")      # look-ups do not change the cache: either of the two functions may use either
+    READERS = ("get", "contains_key")      # look-ups do not change the cache: any method of the reader may perform them
+    home = io_home(F)
     for name, sites in sorted(writers.items()):
         for fn, an, cs in sites:
-            if name in READERS and fn["qual"] in (allowed["get"], allowed["contains_key"]):
-                rep.ok(rule, "bufs.%s in %s" % (name, fn["qual"]), cs.where(), "cache look-up inside load_bytes / get_bytes")
+            if name in READERS and fn["qual"].startswith("elf_stream::CachingReader::"):
+                rep.ok(rule, "bufs.%s in %s" % (name, fn["qual"]), cs.where(), "cache look-up inside a method of the reader (the key is checked below)")
+                continue
+            if name in ("insert", "entry") and fn["qual"] in home and fn["qual"] != "elf_stream::CachingReader::new":
+                rep.ok(rule, "bufs.%s in %s" % (name, fn["qual"]), cs.where(), "cache fill inside load_bytes or a private helper only it calls")
                 continue
             rep.require(allowed.get(name) == fn["qual"], rule, "bufs.%s in %s" % (name, fn["qual"]), cs.where(),
                         "only %s may call bufs.%s" % (allowed.get(name), name),
@@ -277,9 +281,18 @@ def rule_cache_protocol(F, rep, rule="cache-protocol", keys="exact"):
             k = cs.args[1]
         else:
             continue
-        key_terms.append(k)
+        # the request of the function the site is in: its Range parameter (by value or by reference), or its (start, end) parameters
+        wk = [want_key]
+        ins_ = (fn.get("sig") or {}).get("inputs") or []
+        for i_, ty_ in enumerate(ins_):
+            if "ops::Range<usize>" in norm(ty_) and norm(ty_).startswith("&"):
+                r_ = T.deref(T.param(i_ + 1))
+                wk.append(T.agg("tuple", None, 0, None, [T.proj(r_, ("f", 0, "start")), T.proj(r_, ("f", 1, "end"))]))
+        if len(ins_) == 3 and norm(ins_[1]) == "usize" and norm(ins_[2]) == "usize" and [an.names.get(2), an.names.get(3)] == ["start", "end"]:
+            wk.append(T.agg("tuple", None, 0, None, [T.param(2), T.param(3)]))
+        key_terms.append(want_key if any(k is w_ for w_ in wk) else k)
         if keys == "exact":
-            rep.require(k is want_key, rule, "key@%s.%s" % (fn["qual"].split("::")[-1], name), cs.where(), "key = (range.start, range.end)",
+            rep.require(any(k is w_ for w_ in wk), rule, "key@%s.%s" % (fn["qual"].split("::")[-1], name), cs.where(), "key = (range.start, range.end)",
                         "cache key at bufs.%s in %s is %s, not (range.start, range.end) of the request" % (name, fn["qual"], pp(k)))
     if keys == "consistent":
         rep.require(len(set(key_terms)) == 1 and len(key_terms) >= 3, rule, "key-consistency", "src/elf_stream.rs", "contains_key / insert / get use the same key",
@@ -474,6 +487,10 @@ def rule_io_protocol(F, rep, rule="io-protocol"):
                         len(vac) == 1 and any(f[0] == "ne" and f[1] is d_ and f[2] in vac for f in st.facts))
                 else:
                     cached = cached or lan.variant_known(k_.result, "Some", st.facts) is True
+            # ... or the look-up was made by a private helper whose decision tree this path has resolved (`locate()` said Cached)
+            cached = cached or any(f[0] == "true" and f[1].op == "call" and f[1].args[0].endswith("HashMap::contains_key")
+                                   and f[1].args[2] and _is_bufs_val(f[1].args[2][0].args[0] if f[1].args[2][0].op == "refval" else f[1].args[2][0])
+                                   for f in st.facts)
             if gcall is None:
                 inserted = ins and ("var", rd.result, "Ok") in st.facts and ("var", sk.result, "Ok") in st.facts
             else:
@@ -535,7 +552,7 @@ def rule_load_before_get(F, rep, rule="load-before-get"):
                         "reached only after load_bytes of the same range succeeded (fact on every path to the call, incl. data-dependent branches)",
                         "%s calls get_bytes(%s) without a dominating successful load_bytes of exactly that range (the `expect` would panic)"
                         % (fn["qual"], pp(rng)[:160]))
-    rep.floor(rule, "get_bytes call sites", n, 8)
+    rep.floor(rule, "get_bytes call sites", n, 6)     # 9 on the pinned tree; read_bytes may look the buffer up itself
     return n
 
 
